@@ -1021,3 +1021,177 @@ Proof.
   eexists. split; [apply tan_open_inv|]. split; [reflexivity|]. split; [vm_compute; reflexivity|].
   vm_compute. discriminate.
 Qed.
+
+(* ------------------------------------------------------------------ *)
+(* SaveRaftState of Tan over a batch of updates sharing one log file *)
+
+Definition cache_inv (d : tan_db) : Prop :=
+  is_empty_state (td_cache d) = false ->
+  hs_term (td_cache d) = i_term (td_written d) /\ hs_vote (td_cache d) = i_vote (td_written d).
+
+Lemma same_claims_refl : forall a, same_claims a a.
+Proof. intros. unfold same_claims. repeat split; reflexivity. Qed.
+Lemma same_claims_trans : forall a b c, same_claims a b -> same_claims b c -> same_claims a c.
+Proof.
+  intros a b c [A1 [A2 [A3 [A4 A5]]]] [B1 [B2 [B3 [B4 B5]]]]. unfold same_claims. repeat split; congruence.
+Qed.
+Lemma same_claims_sym : forall a b, same_claims a b -> same_claims b a.
+Proof. intros a b [A1 [A2 [A3 [A4 A5]]]]. unfold same_claims. repeat split; congruence. Qed.
+
+Lemma tan_append_props : forall d u d' s,
+  cache_inv d -> state_wf u = true -> tan_append d u = (d', s) ->
+  cache_inv d' /\ td_synced d' = td_synced d /\
+  (s = false -> same_claims (td_written d') (td_written d)).
+Proof.
+  intros d u d' s Hc Hwf H. unfold tan_append in H.
+  destruct (hstate_eqb (u_state u) (td_cache d) && (u_snap_index u =? 0) &&
+            match u_save u with [] => true | _ => false end) eqn:Skip.
+  { injection H as <- <-. split; [exact Hc|]. split; [reflexivity|]. intros _. apply same_claims_refl. }
+  injection H as <- <-. cbn [td_written td_synced td_cache].
+  split.
+  { unfold cache_inv. cbn [td_cache td_written]. intros Ne. unfold persist_update. rewrite Ne. cbn. split; reflexivity. }
+  split; [reflexivity|].
+  intros S.
+  unfold tan_sync_needed, tan_sync_on_snapshot, tan_sync_on_entries, tan_sync_on_state_change in S.
+  cbn [andb] in S. apply orb_false_iff in S. destruct S as [S S3].
+  apply orb_false_iff in S. destruct S as [S1 S2].
+  apply negb_false_iff in S1. apply N.eqb_eq in S1.
+  destruct (u_save u) eqn:Sv; [|discriminate].
+  destruct sync_fields_term_vote as [FT FV].
+  assert (ET := state_sync_change_false _ _ _ _ S3 FT). assert (EV := state_sync_change_false _ _ _ _ S3 FV).
+  cbn [sfield_get] in ET, EV.
+  unfold same_claims, persist_update. rewrite Sv, S1. cbn [i_term i_vote i_log i_snap_index i_snap_term].
+  replace (i_snap_index (td_written d) <? 0) with false by (symmetry; apply N.ltb_ge; lia).
+  destruct (is_empty_state (u_state u)) eqn:Em; [repeat split; reflexivity|].
+  unfold state_wf in Hwf. rewrite Em in Hwf. cbn [orb] in Hwf. apply negb_true_iff in Hwf. apply N.eqb_neq in Hwf.
+  assert (Ne : is_empty_state (td_cache d) = false).
+  { unfold is_empty_state. destruct (hs_term (td_cache d) =? 0) eqn:Z; [|reflexivity].
+    apply N.eqb_eq in Z. congruence. }
+  destruct (Hc Ne) as [C1 C2]. repeat split; congruence.
+Qed.
+
+Definition minv (m : mdb) : Prop := forall k, tan_inv (m k).
+
+Lemma tan_inv_cache : forall d, tan_inv d -> cache_inv d.
+Proof. intros d [_ H]. exact H. Qed.
+
+Lemma mupd_same : forall m k d, mupd m k d k = d.
+Proof. intros. unfold mupd. replace (key_eqb k k) with true by (symmetry; apply key_eqb_eq; reflexivity). reflexivity. Qed.
+Lemma mupd_other : forall m k d k', k' <> k -> mupd m k d k' = m k'.
+Proof.
+  intros. unfold mupd. destruct (key_eqb k' k) eqn:E; [|reflexivity].
+  apply key_eqb_eq in E. congruence.
+Qed.
+
+Lemma key_dec : forall a b : key, a = b \/ a <> b.
+Proof.
+  intros a b. destruct (key_eqb a b) eqn:E.
+  - left. apply key_eqb_eq. exact E.
+  - right. intros ->. assert (T : key_eqb b b = true) by (apply key_eqb_eq; reflexivity). congruence.
+Qed.
+
+Lemma tan_mux_appends_props : forall us m f m' f',
+  (forall k, cache_inv (m k)) -> forallb state_wf us = true ->
+  tan_mux_appends m f us = (m', f') ->
+  (forall k, cache_inv (m' k)) /\ (forall k, td_synced (m' k) = td_synced (m k)) /\
+  (f' = false -> f = false /\ forall k, same_claims (td_written (m' k)) (td_written (m k))).
+Proof.
+  induction us as [|u us IH]; intros m f m' f' Hc Hwf H.
+  - cbn in H. injection H as <- <-. split; [exact Hc|]. split; [reflexivity|].
+    intros E. split; [exact E|]. intros k. apply same_claims_refl.
+  - cbn [tan_mux_appends] in H. cbn [forallb] in Hwf. apply andb_true_iff in Hwf. destruct Hwf as [W1 W2].
+    destruct (tan_append (m (ukey u)) u) as [d' s] eqn:A.
+    destruct (tan_append_props _ _ _ _ (Hc (ukey u)) W1 A) as [P1 [P2 P3]].
+    assert (Hc' : forall k, cache_inv (mupd m (ukey u) d' k)).
+    { intros k. destruct (key_dec k (ukey u)) as [->|Ne]; [rewrite mupd_same; exact P1|rewrite mupd_other by exact Ne; apply Hc]. }
+    destruct (IH _ _ _ _ Hc' W2 H) as [Q1 [Q2 Q3]].
+    split; [exact Q1|]. split.
+    + intros k. rewrite Q2. destruct (key_dec k (ukey u)) as [->|Ne]; [rewrite mupd_same; exact P2|rewrite mupd_other by exact Ne; reflexivity].
+    + intros E. destruct (Q3 E) as [Ef Qk].
+      unfold sync_combine, tan_mux_sync_accumulates in Ef. apply orb_false_iff in Ef. destruct Ef as [Ef Es].
+      split; [exact Ef|]. intros k. apply (same_claims_trans _ _ _ (Qk k)).
+      destruct (key_dec k (ukey u)) as [->|Ne]; [rewrite mupd_same; apply P3; exact Es|rewrite mupd_other by exact Ne; apply same_claims_refl].
+Qed.
+
+Lemma tan_fsync_inv : forall d, cache_inv d -> tan_inv (tan_fsync d).
+Proof. intros d H. split; [apply same_claims_refl|exact H]. Qed.
+
+Lemma tan_mux_save_props : forall m us m' s,
+  minv m -> forallb state_wf us = true -> tan_mux_save m us = (m', s) ->
+  minv m' /\ (s = false -> forall k, same_claims (td_written (m' k)) (td_written (m k))).
+Proof.
+  intros m us m' s I Hwf H. unfold tan_mux_save in H.
+  destruct (tan_mux_appends m false us) as [m1 flag] eqn:A.
+  destruct (tan_mux_appends_props us m false m1 flag (fun k => tan_inv_cache _ (I k)) Hwf A) as [Q1 [Q2 Q3]].
+  unfold tan_mux_sync_after_batch in H. rewrite andb_true_r in H.
+  destruct flag; injection H as <- <-.
+  - split; [|discriminate]. intros k. apply tan_fsync_inv. apply Q1.
+  - destruct (Q3 eq_refl) as [_ Qk]. split; [|intros _; exact Qk].
+    intros k. split; [|apply Q1].
+    rewrite Q2. apply (same_claims_trans _ (td_written (m k))); [apply (proj1 (I k))|apply same_claims_sym; apply Qk].
+Qed.
+
+(* the batch form: if ANY update of one SaveRaftState call changes something a message of its
+   replica can make a claim about, the call fsyncs the log before it returns *)
+Lemma tan_batch_claim_change_requires_sync_proved : forall m us m' s,
+  minv m -> forallb state_wf us = true -> tan_mux_save m us = (m', s) ->
+  (exists k, ~ same_claims (td_written (m' k)) (td_written (m k))) -> s = true.
+Proof.
+  intros m us m' s I Hwf H [k Hk]. destruct s; [reflexivity|exfalso].
+  apply Hk. apply (proj2 (tan_mux_save_props m us m' false I Hwf H) eq_refl).
+Qed.
+
+Lemma tan_mux_run_inv : forall batches m,
+  minv m -> forallb (forallb state_wf) batches = true -> minv (tan_mux_run m batches).
+Proof.
+  induction batches as [|us r IH]; intros m I H; [exact I|].
+  cbn [forallb] in H. apply andb_true_iff in H. destruct H as [H1 H2].
+  unfold tan_mux_run. cbn [fold_left]. apply IH; [|exact H2].
+  destruct (tan_mux_save m us) as [m' s] eqn:S. cbn [fst].
+  apply (proj1 (tan_mux_save_props m us m' s I H1 S)).
+Qed.
+
+Lemma tan_seq_save_inv : forall us m,
+  minv m -> forallb state_wf us = true -> minv (tan_seq_save m us).
+Proof.
+  induction us as [|u us IH]; intros m I H; [exact I|].
+  cbn [forallb] in H. apply andb_true_iff in H. destruct H as [H1 H2].
+  cbn [tan_seq_save]. apply IH; [|exact H2].
+  unfold tan_seq_sync_each. intros k.
+  destruct (key_dec k (ukey u)) as [->|Ne]; [rewrite mupd_same|rewrite mupd_other by exact Ne; apply I].
+  destruct (tan_write (m (ukey u)) u) as [d' s] eqn:W. cbn [fst].
+  apply (tan_write_inv _ _ _ _ (I (ukey u)) H1 W).
+Qed.
+
+Lemma tan_seq_run_inv : forall batches m,
+  minv m -> forallb (forallb state_wf) batches = true -> minv (tan_seq_run m batches).
+Proof.
+  induction batches as [|us r IH]; intros m I H; [exact I|].
+  cbn [forallb] in H. apply andb_true_iff in H. destruct H as [H1 H2].
+  unfold tan_seq_run. cbn [fold_left]. apply IH; [|exact H2]. apply tan_seq_save_inv; assumption.
+Qed.
+
+Lemma minv_open : forall imgs : key -> image, minv (fun k => tan_open (imgs k)).
+Proof. intros imgs k. apply tan_open_inv. Qed.
+
+(* power loss after any sequence of acknowledged SaveRaftState BATCHES, both Tan modes: what
+   survives covers, for every replica, exactly what the written state covers *)
+Lemma tan_batches_power_loss_keeps_claims_proved : forall (imgs : key -> image) batches k msg,
+  forallb (forallb state_wf) batches = true ->
+  covers (td_synced (tan_mux_run (fun k => tan_open (imgs k)) batches k)) msg =
+  covers (td_written (tan_mux_run (fun k => tan_open (imgs k)) batches k)) msg /\
+  covers (td_synced (tan_seq_run (fun k => tan_open (imgs k)) batches k)) msg =
+  covers (td_written (tan_seq_run (fun k => tan_open (imgs k)) batches k)) msg.
+Proof.
+  intros imgs batches k msg H. split; apply covers_same_claims.
+  - apply (proj1 (tan_mux_run_inv batches _ (minv_open imgs) H k)).
+  - apply (proj1 (tan_seq_run_inv batches _ (minv_open imgs) H k)).
+Qed.
+
+(* rebuildLog: at every instant of the GENERATED epilogue a power cut keeps the acknowledged
+   records: the replacement is fsynced before it can take the place of the log *)
+Lemma rebuild_every_cut_safe_proved : forall n,
+  rebuild_safe (rebuild_run (firstn n tan_rebuild_log_steps)) = true.
+Proof.
+  intros n. do 6 (destruct n as [|n]; [vm_compute; reflexivity|]). vm_compute. reflexivity.
+Qed.
